@@ -12,7 +12,7 @@ use winter_air::proof::Proof;
 use winter_crypto::{hashers::{Blake3_256, Rp64_256, Sha3_256}, DefaultRandomCoin, ElementHasher, MerkleTree};
 use winter_math::fields::{f128, f64};
 use winter_prover::Prover;
-use winter_utils::{Deserializable, Serializable, SliceReader};
+use winter_utils::{ByteReader, Deserializable, Serializable, SliceReader};
 use winter_verifier::{verify, AcceptableOptions};
 
 use crate::c10::{with_timeout, P128, P64};
@@ -161,6 +161,110 @@ fn c05_one<B: BF + Send + Sync, H: ElementHasher<BaseField = B> + Sync + 'static
                 if v == "ok" { if parsed.as_ref() == Some(&orig) { "accepted-identical".into() } else { "ACCEPTED-DIFFERENT".into() } } else { "rejected".into() }
             });
         }
+        // an opening proof carrying one more (unused) node than the tree path needs: re-encode the
+        // batch Merkle proof of the first trace query / the constraint queries with a duplicated
+        // digest appended to its last node vector
+        for which in ["trace", "constraint"] {
+            let q = if which == "trace" { h.proof.trace_queries[0].clone() } else { h.proof.constraint_queries.clone() };
+            let qb = q.to_bytes();
+            let mut r = SliceReader::new(&qb);
+            let (Ok(values), Ok(opening)) = (Vec::<u8>::read_from(&mut r), Vec::<u8>::read_from(&mut r)) else { continue };
+            let mut r = SliceReader::new(&opening);
+            let (Ok(depth), Ok(nvec)) = (r.read_u8(), r.read_usize()) else { continue };
+            let mut vecs: Vec<Vec<u8>> = Vec::new();
+            let mut okp = true;
+            for _ in 0..nvec {
+                let Ok(l) = r.read_usize() else { okp = false; break };
+                let Ok(b) = r.read_vec(32 * l) else { okp = false; break };
+                vecs.push(b);
+            }
+            if !okp || r.has_more_bytes() || vecs.is_empty() { continue; }
+            for (name, extra_vec) in [("extra-node", false), ("extra-node-vector", true)] {
+                let mut v2 = vecs.clone();
+                let donor: Vec<u8> = v2.iter().find(|v| v.len() >= 32).map(|v| v[..32].to_vec()).unwrap_or(vec![0u8; 32]);
+                if extra_vec { v2.push(donor.clone()); } else { let l = v2.len(); v2[l - 1].extend(&donor); }
+                let mut ob = vec![depth];
+                ob.extend(v2.len().to_bytes());
+                for v in &v2 { ob.extend((v.len() / 32).to_bytes()); ob.extend(v); }
+                let mut nq = values.to_bytes();
+                nq.extend(ob.to_bytes());
+                let Ok(q2) = winter_air::proof::Queries::read_from_bytes(&nq) else { continue };
+                let mut pr = h.proof.clone();
+                if which == "trace" { pr.trace_queries[0] = q2; } else { pr.constraint_queries = q2; }
+                let b = pr.to_bytes();
+                let (pi, o) = (h.pub_in.clone(), h.opts.clone());
+                let orig = h.proof.clone();
+                out.count("mutation:opening-extra");
+                out.case(&format!("c04 {field} {hname} opening:{which}:{name} {}", hex(&b)), "~^(rejected|accepted-identical)$", move || {
+                    let (v, parsed) = decode_verify::<B, H>(b, pi, &o);
+                    if v == "ok" { if parsed.as_ref() == Some(&orig) { "accepted-identical".into() } else { "ACCEPTED-DIFFERENT unused-opening-node".into() } } else { "rejected".into() }
+                });
+            }
+        }
+        // length-prefix surgery: every length-prefixed byte vector inside the proof grows or shrinks
+        // by k bytes with its prefix re-encoded (so that decoding stays aligned): nothing the parsers
+        // accept may be ignored by the verifier
+        {
+            let vecs = proof_vectors(&h);
+            for (vi, v) in vecs.iter().enumerate() {
+                for &k in &[1usize, 8, 16, 32] {
+                    for grow in [true, false] {
+                        if !grow && v.len < k { continue; }
+                        // thin out: every vector with k = 1 and 32, the rest sampled
+                        if (k == 8 || k == 16) && !rng.chance(1, 3) { continue; }
+                        let mut b = h.bytes[..v.prefix_pos].to_vec();
+                        let new_len = if grow { v.len + k } else { v.len - k };
+                        match v.width { 0 => b.extend(new_len.to_bytes()), w => b.extend(&(new_len as u64).to_le_bytes()[..w]) }
+                        let data = &h.bytes[v.data_pos..v.data_pos + v.len];
+                        if grow {
+                            b.extend(data);
+                            // duplicate the trailing bytes (stays a valid digest / field element encoding)
+                            let src = if v.len >= k { data[v.len - k..].to_vec() } else { vec![0u8; k] };
+                            b.extend(src);
+                        } else {
+                            b.extend(&data[..new_len]);
+                        }
+                        b.extend(&h.bytes[v.data_pos + v.len..]);
+                        let (pi, o) = (h.pub_in.clone(), h.opts.clone());
+                        let orig = h.proof.clone();
+                        let name = v.name;
+                        out.count(&format!("mutation:resize:{name}"));
+                        out.case(&format!("c04 {field} {hname} resize:{name}#{vi}:{}{k} {}", if grow { '+' } else { '-' }, hex(&b)), "~^(rejected|accepted-identical)$", move || {
+                            let (v, parsed) = decode_verify::<B, H>(b, pi, &o);
+                            if v == "ok" { if parsed.as_ref() == Some(&orig) { "accepted-identical".into() } else { format!("ACCEPTED-DIFFERENT resized {name}") } } else { "rejected".into() }
+                        });
+                    }
+                }
+            }
+        }
+        // context values that to_elements() reduces to 32 bits: the same seed would result from
+        // num_constraints + k*2^32, so the decoder has to refuse them (re-encoded size prefix)
+        {
+            let ctx_bytes = h.proof.context.to_bytes();
+            let nc = h.proof.context.num_constraints();
+            let old_nc = nc.to_bytes();
+            for (name, nc2) in [("nc+2^32", nc + (1usize << 32)), ("nc+2^33", nc + (1usize << 33)), ("nc+2^63", nc + (1usize << 63)), ("nc=0", 0usize), ("nc=2^32", 1usize << 32)] {
+                let mut b = ctx_bytes[..ctx_bytes.len() - old_nc.len()].to_vec();
+                b.extend(nc2.to_bytes());
+                b.extend(&h.bytes[ctx_bytes.len()..]);
+                let (pi, o) = (h.pub_in.clone(), h.opts.clone());
+                let orig = h.proof.clone();
+                out.count("mutation:ctx-32bit");
+                out.case(&format!("c04 {field} {hname} ctx:{name} {}", hex(&b)), "~^(rejected|accepted-identical)$", move || {
+                    let (v, parsed) = decode_verify::<B, H>(b, pi, &o);
+                    if v == "ok" { if parsed.as_ref() == Some(&orig) { "accepted-identical".into() } else { "ACCEPTED-DIFFERENT num-constraints".into() } } else { "rejected".into() }
+                });
+            }
+            // trace length exponent raised by 32 (byte 3 of the trace info encoding)
+            let mut b = h.bytes.clone();
+            b[3] = b[3].wrapping_add(32);
+            let (pi, o) = (h.pub_in.clone(), h.opts.clone());
+            let orig = h.proof.clone();
+            out.case(&format!("c04 {field} {hname} ctx:len*2^32 {}", hex(&b)), "~^(rejected|accepted-identical)$", move || {
+                let (v, parsed) = decode_verify::<B, H>(b, pi, &o);
+                if v == "ok" { if parsed.as_ref() == Some(&orig) { "accepted-identical".into() } else { "ACCEPTED-DIFFERENT trace-length".into() } } else { "rejected".into() }
+            });
+        }
         // trace metadata extended by a zero byte inside the last chunk (class of the recorded C24 finding)
         if !h.proof.context.trace_info().meta().is_empty() && h.proof.context.trace_info().meta().len() % 7 != 0 {
             let ti = h.proof.context.trace_info();
@@ -179,6 +283,46 @@ fn c05_one<B: BF + Send + Sync, H: ElementHasher<BaseField = B> + Sync + 'static
             });
         }
     }
+}
+
+struct PVec { name: &'static str, prefix_pos: usize, width: usize, data_pos: usize, len: usize }
+
+/// positions of all length-prefixed byte vectors in the proof encoding (width 0 = vint64 prefix)
+fn proof_vectors<B: BF>(h: &Honest<B>) -> Vec<PVec> {
+    let bytes = &h.bytes;
+    let mut out = Vec::new();
+    let mut pos = h.proof.context.to_bytes().len() + 1;
+    let fixed = |out: &mut Vec<PVec>, pos: &mut usize, name: &'static str, w: usize| {
+        let mut l = 0usize;
+        for i in 0..w { l |= (bytes[*pos + i] as usize) << (8 * i); }
+        out.push(PVec { name, prefix_pos: *pos, width: w, data_pos: *pos + w, len: l });
+        *pos += w + l;
+    };
+    let vint = |out: &mut Vec<PVec>, pos: &mut usize, name: &'static str| {
+        let mut r = SliceReader::new(&bytes[*pos..]);
+        let l = r.read_usize().unwrap();
+        let pl = l.to_bytes().len();
+        out.push(PVec { name, prefix_pos: *pos, width: 0, data_pos: *pos + pl, len: l });
+        *pos += pl + l;
+    };
+    fixed(&mut out, &mut pos, "commitments", 2);
+    for _ in 0..h.proof.trace_queries.len() {
+        vint(&mut out, &mut pos, "trace-values");
+        vint(&mut out, &mut pos, "trace-paths");
+    }
+    vint(&mut out, &mut pos, "constraint-values");
+    vint(&mut out, &mut pos, "constraint-paths");
+    fixed(&mut out, &mut pos, "ood-trace", 2);
+    fixed(&mut out, &mut pos, "ood-constraints", 2);
+    let nl = bytes[pos] as usize;
+    pos += 1;
+    for _ in 0..nl {
+        fixed(&mut out, &mut pos, "fri-values", 4);
+        fixed(&mut out, &mut pos, "fri-paths", 4);
+    }
+    fixed(&mut out, &mut pos, "fri-remainder", 2);
+    assert_eq!(pos + 1 + 8, bytes.len(), "proof layout walk is out of step with the encoding");
+    out
 }
 
 fn diff_fields(a: &Proof, b: &Proof) -> String {
